@@ -2,7 +2,8 @@
 
 
 def kani_lemmas(prop, tier, work):
-    return []
+    from . import kani
+    return kani.run(prop, work)
 
 
 def run_thorough(prop, units, results, work):
